@@ -33,6 +33,7 @@ type ClientState struct {
 	Replies     [][]byte
 	ReplySeq    []uint64 // kernel seq at which reply i was completely received by the client
 	ReplyStep   []int
+	ReplyRound  []int
 	Malformed   bool
 	Connected   bool
 	SelfClosed  bool
@@ -95,6 +96,7 @@ type Driver struct {
 	Trace    []string
 	keepTrace bool
 	PollNo   int
+	Round    int
 	wl       interface{}
 }
 
@@ -295,6 +297,7 @@ func (d *Driver) feedAll(bc *BConn) bool {
 		if r.HoldFor > 0 {
 			r.ReadyAt = time.Now().Add(r.HoldFor)
 		}
+		r.At = time.Since(d.Start)
 		d.trace("node %s conn#%d exec %s %v -> %q", bc.Node.Addr, bc.ID, r.Name, r.Tokens, clip(r.Reply, 60))
 	}
 	return true
@@ -344,6 +347,8 @@ func (d *Driver) release(bc *BConn, n int) {
 		if bc.relOff == len(r.Reply) {
 			r.Released = true
 			r.RelSeq = d.K.Seq()
+			r.RelRound = d.Round
+			r.RelAt = time.Since(d.Start)
 			bc.Pending = bc.Pending[1:]
 			bc.relOff = 0
 			if r.Kind == "protoerr" {
@@ -521,6 +526,7 @@ func (d *Driver) recv(c *ClientState, n int) {
 		c.Replies = append(c.Replies, append([]byte(nil), r.Raw...))
 		c.ReplySeq = append(c.ReplySeq, d.K.Seq())
 		c.ReplyStep = append(c.ReplyStep, d.PollNo)
+		c.ReplyRound = append(c.ReplyRound, d.Round)
 		c.ReplyAt = append(c.ReplyAt, time.Since(d.Start))
 		c.recv = c.recv[m:]
 		d.trace("client %d got reply #%d %q", c.Idx, len(c.Replies)-1, clip(r.Raw, 60))
@@ -947,4 +953,43 @@ func (d *Driver) nothingHeld() bool {
 		}
 	}
 	return true
+}
+
+// fairRun: strictly fair, fault-free scheduling in rounds of 1 fake ms (liveness profiles).
+func (d *Driver) fairRun(maxRounds int, done func() bool) {
+	d.phase = "fair"
+	d.WorkStart = time.Now()
+	lastPoll := time.Now()
+	for d.Round = 1; d.Round <= maxRounds; d.Round++ {
+		d.Step = d.Round
+		d.fireEvents()
+		for _, c := range d.Clients {
+			if d.startable(c) {
+				d.connect(c)
+			}
+			if n := d.sendable(c); n > 0 {
+				d.send(c, n)
+			}
+		}
+		if d.K.AnyReady() || time.Since(lastPoll) >= 200*time.Millisecond {
+			d.Poll()
+			lastPoll = time.Now()
+		}
+		d.pumpBackends()
+		// the proxy may need several polls to drain its task queue (eventfd wake-ups)
+		for i := 0; i < 3 && d.K.AnyReady(); i++ {
+			d.Poll()
+			lastPoll = time.Now()
+		}
+		for _, c := range d.Clients {
+			if n := d.recvable(c); n > 0 {
+				d.recv(c, n)
+			}
+		}
+		d.observe()
+		if done != nil && done() {
+			return
+		}
+		d.sleep(time.Millisecond)
+	}
 }
